@@ -50,7 +50,8 @@ def on_tick(h: Any, tick: Any, adapter: Any) -> None:
 
         delta = cnt(post_ws, ev) - cnt(pre_ws, ev)
         waiting = [w for w in pre_ws.collected_waiters
-                   if w.resolved_event is None and w.waiting_for_event is type(ev)
+                   if w.resolved_event is None and not getattr(w, "timed_out", False)  # (a wait whose timeout has fired is over)
+                   and w.waiting_for_event is type(ev)
                    and all(getattr(ev, k, None) == v for k, v in w.requirements.items())
                    and (w.requirements or not w.has_requirements)]
         addressed = target is None or target == name
@@ -68,6 +69,8 @@ def on_tick(h: Any, tick: Any, adapter: Any) -> None:
             resolved = [w for w in post_ws.collected_waiters if w.resolved_event is ev]
             if not resolved:
                 h.violate("waiter_not_resolved", {"step": name}, f"{type(ev).__name__} should resolve a waiter of {name}")
+            else:
+                h.c02_accepted_as_wait_result = getattr(h, "c02_accepted_as_wait_result", []) + [(name, resolved[0].waiter_id, ev)]
         else:
             want = 1 if (type(ev) in acc[name] and addressed) else 0
             any_handled = any_handled or bool(want)
@@ -133,6 +136,13 @@ def final(h: Any, e: Any, state: dict[str, Any]) -> None:
                 and id(inv.result) not in routed:
             h.violate("returned_event_never_routed", {"type_kind": "InputRequiredEvent" if isinstance(inv.result, InputRequiredEvent) else "plain"},
                       f"step {inv.step} returned {type(inv.result).__name__}#{getattr(inv.result, 'uid', '')}, but it was never handed to the steps")
+    # (b2'') an event accepted as a step's wait result is what that step's wait_for_event returns
+    if h.spec.params.get("records_wait_results"):
+        for name, wid, ev in getattr(h, "c02_accepted_as_wait_result", []):
+            got = [r for w, r in WAIT_RESULTS if w == wid]
+            if not any(r is ev for r in got):
+                h.violate("wait_result_not_received", {"step": name, "got": "TimeoutError" if "TimeoutError" in got else ("nothing" if not got else "another_event")},
+                          f"{type(ev).__name__}#{getattr(ev, 'uid', '')} resolved wait {wid!r} of step {name}, but the waiting invocation got {got!r} from wait_for_event")
     # (b3) one UnhandledEvent per unroutable event, none for InputRequiredEvent
     unh = Counter(u.event_type for u in h.published if isinstance(u, UnhandledEvent))
     want_unh: Counter = Counter()
@@ -253,6 +263,45 @@ def wf_pool_wait(k: int, w: int) -> type:
     return make_workflow("PoolWait", [
         make_step("start", [StartEvent], [Work, None], start),
         make_step("work", [Work], [Done], work, num_workers=w),
+        make_step("fin", [Done], [StopEvent, None], fin, num_workers=1),
+    ])
+
+
+WAIT_RESULTS: list[tuple[str, Any]] = []  # (waiter id, what wait_for_event gave the waiting invocation) of the current execution
+
+
+def wf_wait_behind_busy(timeout: float) -> type:
+    """a single-worker step: its first input waits for Resp (with a timeout), its second input then keeps the only slot
+    busy; the answer arrives in time, so the waiting invocation's re-entry is queued behind the busy one - and the wait's
+    timeout elapses while it is still queued.  The answer was accepted as the wait result and must be what the wait returns"""
+    WAIT_RESULTS.clear()  # (the workflow class is built anew for every execution)
+
+    async def start(self, ctx, ev, inv):  # noqa: ANN001
+        ctx.send_event(Work(uid=0))
+        ctx.send_event(Work(uid=1))
+        return None
+
+    async def work(self, ctx, ev, inv):  # noqa: ANN001
+        if ev.uid == 0:
+            try:
+                r = await ctx.wait_for_event(Resp, timeout=timeout, waiter_id="wb")
+            except TimeoutError:
+                WAIT_RESULTS.append(("wb", "TimeoutError"))
+                return Done(uid=-1)
+            WAIT_RESULTS.append(("wb", r))
+            return Done(uid=100 + r.uid)
+        await gate(f"work{ev.uid}")
+        return Done(uid=ev.uid)
+
+    async def fin(self, ctx, ev, inv):  # noqa: ANN001
+        r = ctx.collect_events(ev, [Done] * 2)
+        if r is None:
+            return None
+        return StopEvent(result=sorted(e.uid for e in r))
+
+    return make_workflow("WaitBehindBusy", [
+        make_step("start", [StartEvent], [Work, None], start),
+        make_step("work", [Work], [Done], work, num_workers=1),
         make_step("fin", [Done], [StopEvent, None], fin, num_workers=1),
     ])
 
@@ -391,6 +440,8 @@ def specs(tier: str) -> list[Spec]:
              max_dev=(4 if q else None), tags=("waiter", "pool")),
         Spec("pool_wait(k=4,w=3)", {"waiter_steps": ["work"], "send_when_waiting": True}, lambda: wf_pool_wait(4, 3),
              max_dev=(3 if q else 5), tags=("waiter", "pool")),
+        Spec("wait_behind_busy(timeout=5)", {"waiter_steps": ["work"], "send_when_waiting": True, "records_wait_results": True},
+             lambda: wf_wait_behind_busy(5.0), max_dev=(3 if q else None), tags=("pool", "waiter", "delay")),
         Spec("retry_siblings", {"waiter_steps": []}, wf_retry_siblings, max_dev=(3 if q else None), tags=("retry",)),
         Spec("request_event_consumed_by_a_step", {"waiter_steps": []}, lambda: wf_request_consumed(False), tags=("hitl",)),
         Spec("request_event_awaited_by_a_step", {"waiter_steps": ["waits"], "wait_types": ["Ask"]}, lambda: wf_request_consumed(True),
@@ -400,7 +451,7 @@ def specs(tier: str) -> list[Spec]:
 
 
 def _prep(h: Any) -> None:
-    pass
+    WAIT_RESULTS.clear()
 
 
 def _oracle() -> Oracle:
